@@ -79,10 +79,10 @@ type cmpImpl struct {
 	succ func(dst, b []byte) []byte
 }
 
-func (c *cmpImpl) Compare(a, b []byte) int          { return c.cmp(a, b) }
-func (c *cmpImpl) Name() string                     { return c.name }
+func (c *cmpImpl) Compare(a, b []byte) int           { return c.cmp(a, b) }
+func (c *cmpImpl) Name() string                      { return c.name }
 func (c *cmpImpl) Separator(dst, a, b []byte) []byte { return c.sep(dst, a, b) }
-func (c *cmpImpl) Successor(dst, b []byte) []byte   { return c.succ(dst, b) }
+func (c *cmpImpl) Successor(dst, b []byte) []byte    { return c.succ(dst, b) }
 
 func nilSep(dst, a, b []byte) []byte { return nil }
 func nilSucc(dst, b []byte) []byte   { return nil }
@@ -122,26 +122,27 @@ func Comparer(id string) comparer.Comparer {
 
 // Opts is a replayable description of an option set.
 type Opts struct {
-	Cmp                  string `json:"cmp"`
-	WriteBuffer          int    `json:"write_buffer"`
-	TableSize            int    `json:"table_size"`
-	TotalSize            int    `json:"total_size"`
-	BlockSize            int    `json:"block_size"`
-	Restart              int    `json:"restart"`
-	L0Trigger            int    `json:"l0_trigger"`
-	Compression          int    `json:"compression"` // 1 none, 2 snappy
-	FilterBits           int    `json:"filter_bits"` // 0 = none
-	FilterBaseLg         int    `json:"filter_base_lg"`
-	OpenFiles            int    `json:"open_files"`
-	BlockCache           int    `json:"block_cache"` // -1 disabled
-	DisableBufferPool    bool   `json:"disable_buffer_pool"`
-	DisableSeeks         bool   `json:"disable_seeks"`
-	NoWriteMerge         bool   `json:"no_write_merge"`
-	DisableLargeBatchTx  bool   `json:"disable_large_batch_tx"`
-	MaxManifest          int64  `json:"max_manifest"` // 0 = default
-	IterSampling         int    `json:"iter_sampling"`
-	NoSync               bool   `json:"no_sync"`
-	MaxMemCompLevel      int    `json:"max_mem_comp_level"`
+	Cmp                 string  `json:"cmp"`
+	WriteBuffer         int     `json:"write_buffer"`
+	TableSize           int     `json:"table_size"`
+	TotalSize           int     `json:"total_size"`
+	BlockSize           int     `json:"block_size"`
+	Restart             int     `json:"restart"`
+	L0Trigger           int     `json:"l0_trigger"`
+	Compression         int     `json:"compression"` // 1 none, 2 snappy
+	FilterBits          int     `json:"filter_bits"` // 0 = none
+	FilterBaseLg        int     `json:"filter_base_lg"`
+	OpenFiles           int     `json:"open_files"`
+	BlockCache          int     `json:"block_cache"` // -1 disabled
+	DisableBufferPool   bool    `json:"disable_buffer_pool"`
+	DisableSeeks        bool    `json:"disable_seeks"`
+	NoWriteMerge        bool    `json:"no_write_merge"`
+	DisableLargeBatchTx bool    `json:"disable_large_batch_tx"`
+	MaxManifest         int64   `json:"max_manifest"` // 0 = default
+	IterSampling        int     `json:"iter_sampling"`
+	NoSync              bool    `json:"no_sync"`
+	MaxMemCompLevel     int     `json:"max_mem_comp_level"`
+	TotalSizeMult       float64 `json:"total_size_mult,omitempty"` // 0 = default (10): a small factor gives deep trees with little data
 }
 
 func RandOpts(r *rng.R) Opts {
@@ -177,6 +178,9 @@ func RandOpts(r *rng.R) Opts {
 	if r.Chance(1, 3) {
 		o.MaxManifest = int64(64 << uint(r.Intn(6)))
 	}
+	if r.Chance(1, 2) {
+		o.TotalSizeMult = []float64{1.2, 1.5, 2, 3}[r.Intn(4)]
+	}
 	return o
 }
 
@@ -210,9 +214,11 @@ func (o Opts) Options() *opt.Options {
 	if o.MaxManifest > 0 {
 		oo.MaxManifestFileSize = o.MaxManifest
 	}
+	if o.TotalSizeMult > 0 {
+		oo.CompactionTotalSizeMultiplier = o.TotalSizeMult
+	}
 	return oo
 }
-
 
 // Hex renders bytes for replays ("-" for empty), like the Lean driver's fields.
 func Hex(b []byte) string {
